@@ -99,11 +99,18 @@ def main():
     # ---- 3. keep it
     dst = os.path.join(ROOT, "seeded", "%s-%s" % (pid, n))
     os.makedirs(dst, exist_ok=True)
+    history = ""
+    try:
+        prev = json.load(open(os.path.join(dst, "meta.json")))
+        history = (prev.get("history", "") + " " if prev.get("history") else "") + "earlier run: %s by %s." % (
+            "caught" if prev.get("caught") else "MISSED", ",".join(prev.get("checks", {}).keys()))
+    except (OSError, ValueError):
+        pass
     shutil.copy(diff, os.path.join(dst, "patch.diff"))
     shutil.copy(demo, os.path.join(dst, "demo_test.go.txt"))
     json.dump({"breaks": pid, "summary": meta.get("summary"), "needs_to_manifest": meta.get("needs_to_manifest"),
                "author_ran": meta.get("ran"), "confirmation": res, "checks": verdicts,
-               "caught": any(v["exit"] != 0 and v["violation_lines"] for v in verdicts.values())},
+               "caught": any(v["exit"] != 0 and v["violation_lines"] for v in verdicts.values()), "history": history.strip()},
               open(os.path.join(dst, "meta.json"), "w"), indent=1)
     return 0
 
